@@ -130,6 +130,10 @@ def _two_element_periodic(case, v):
     return case.get('kind') == 'periodic-small' and case['btype'] in ('lagrange', 'bernstein') and 2 in _periodic_extent(case)
 
 
+def _one_by_one_doubly_periodic(case, v):
+    return case.get('kind') == 'periodic-small' and case['btype'] in ('lagrange', 'bernstein') and _periodic_extent(case) == [1, 1]
+
+
 def check(case, rec):
     import nutils_poly
     from nutils import function
@@ -144,6 +148,15 @@ def check(case, rec):
         btype = case['btype']; base = btype.split('-')[-1]
         ndofs = len(basis)
         nel = len(topo)
+        if case['kind'] == 'periodic-small' and btype in ('lagrange', 'bernstein') and not info.get('masked'):
+            # a C^0 nodal basis of degree p on a structured mesh has one function per node: n*p nodes around a periodic direction, n*p+1 along an open one
+            p_ = kwargs['degree']; r_ = 2 if case['refine'] else 1
+            ext = [case['n'][0] * r_, min(case['n'][1], 2) * r_]
+            per = [True, bool(case.get('periodic2'))]
+            expected = int(numpy.prod([e * p_ if pr else e * p_ + 1 for e, pr in zip(ext, per)]))
+            if ndofs != expected:
+                raise Violation('dof-count', f'{btype} degree {p_} on rectilinear({ext}, periodic={[d for d, pr in enumerate(per) if pr]}) has {ndofs} functions, the mesh has {expected} nodes', where='dof-count:' + btype)
+            rec.label('dof-count-checked')
         smp = topo.sample('bezier', 3) if topo.ndims < 3 else topo.sample('gauss', 2)
         vals = numpy.asarray(smp.eval(basis))
         if vals.shape[1:] != (ndofs,):
@@ -426,7 +439,7 @@ def check_splineref(case, rec):
 SUBS = [Sub('basis', cases, check, {'quick': 200, 'thorough': 4000}, weight=3, timeout=180),
         Sub('splineref', splineref_cases, check_splineref, {'quick': 300, 'thorough': 6000}, weight=2, timeout=120)]
 
-TRIGGERS = {'c0-basis-two-element-periodic': _two_element_periodic}
+TRIGGERS = {'c0-basis-two-element-periodic': _two_element_periodic, 'c0-basis-one-by-one-doubly-periodic': _one_by_one_doubly_periodic}
 
 MANIFEST = dict(
     category='exploration',
